@@ -84,7 +84,7 @@ CLASSES = ["a", "b", "c", "item", "btn-primary", "x_1", "中", "a-b"]
 UNITS = ["px", "em", "rem", "vh", "vw", "deg", "s", "ms", "fr", "RPX", "rpxx", "erpx", "rp", "x"]
 PSEUDO = ["hover", "first-child", "before", "active", "root"]
 PROPS = ["color", "margin", "width", "z-index", "font", "background", "--x", "--my-var", "transform", "grid-template-columns", "content", "line-height"]
-INT_TEXTS = ["0", "1", "2", "7", "10", "100", "255", "999", "1000", "65535", "65536", "99999", "100000", "999999", "1000000", "9999999", "16777215", "16777216", "16777217", "2147483647", "-1", "-2147483648", "+5", "123456", "1234567", "12345678"]
+INT_TEXTS = ["0", "1", "2", "7", "10", "100", "255", "999", "1000", "65535", "65536", "99999", "100000", "999999", "1000000", "9999999", "16777215", "16777216", "16777217", "2147483647", "-1", "-2147483648", "+5", "123456", "1234567", "12345678", "-1234567", "-9999999", "-16777217", "+33554433", "99999999", "-123456789"]
 FLOAT_TEXTS = ["0.5", ".5", "1.5", "0.25", "3.14159", "0.1234567", "12.345678", "1e3", "1.5e-3", "2E2", "0.000001", "100.5", "-0.5", "+.75", "0.1", "0.333333", "99.9999", "1234.5678", "0.0", "-0.0"]
 RPX_TEXTS = ["0", "1", "2", "7.5", "10", "75", "100", "375", "750", "1.5", "0.5", ".5", "-10", "+20", "1e2", "33.3333", "12345", "0.01", "999999", "7", "3"]
 
